@@ -721,8 +721,13 @@ def make_regex(rule, maxlen):
     return mk
 
 
+def _ufold(o):
+    """simple (one to one) case mapping as re.IGNORECASE applies it, for the alphabets used here"""
+    return 223 if o == 7838 else _fold(o)
+
+
 def glob_match(pat, text, pi=0, ti=0):
-    """case-insensitive (ASCII) whole-string glob: * ? and literal characters"""
+    """case-insensitive (one to one case mapping) whole-string glob: * ? and literal characters"""
     while pi < len(pat):
         p = pat[pi]
         if p == "*":
@@ -732,19 +737,20 @@ def glob_match(pat, text, pi=0, ti=0):
             return False
         if ti >= len(text):
             return False
-        if p != "?" and _fold(ord(p)) != _fold(ord(text[ti])):
+        if p != "?" and _ufold(ord(p)) != _ufold(ord(text[ti])):
             return False
         pi += 1
         ti += 1
     return ti == len(text)
 
 
-PATTERN_RULES = ["a*", "?b", "a*c", "*", "x?z*"]
+PATTERN_RULES = ["a*", "?b", "?\u00df", "a*c", "*", "x?z*", "\u00df*s"]
 
 
 def make_pattern(rule, maxlen):
     letters = sorted(set(c for c in rule if c.isalpha()))
-    alphabet = sorted(set([ord(c) for c in letters] + [ord(c.upper()) for c in letters] + [ord("q"), ord("."), 10]))
+    alphabet = sorted(set([ord(c) for c in letters] + [ord(c.upper()) for c in letters if len(c.upper()) == 1] +
+                          [ord("q"), ord("."), 10] + ([7838, ord("s"), ord("S")] if "\u00df" in rule else [])))
 
     def go(cell):
         from cutplace import errors
@@ -791,6 +797,35 @@ def native_checks():
         if f.strptime_format != strptime_format_oracle(rule):
             failures.append(dict(key="datetime-format", what="DateTime rule %r translated to %r, expected %r" % (
                 rule, f.strptime_format, strptime_format_oracle(rule)), args=dict(rule=rule)))
+    # the documented value ranges of the place holders (docs/writing-an-icd.rst: DD, MM 1..12, YYYY 1..9999, hh 0..23,
+    # mm 0..59, ss 0..61 "because of possible leap seconds", leading zeros ignored) and dates that exist
+    calendar = [("hh:mm:ss", "23:59:59", True), ("hh:mm:ss", "23:59:60", True), ("hh:mm:ss", "23:59:61", True),
+                ("hh:mm:ss", "23:59:62", False), ("hh:mm:ss", "24:00:00", False), ("hh:mm:ss", "00:60:00", False),
+                ("hh:mm:ss", "0:0:0", True), ("hh:mm:ss", "7:5:3", True), ("hh:mm", "23:59", True), ("hh:mm", "23:60", False),
+                ("DD.MM.YYYY", "29.02.2020", True), ("DD.MM.YYYY", "29.02.2021", False), ("DD.MM.YYYY", "29.02.1900", False),
+                ("DD.MM.YYYY", "29.02.2000", True), ("DD.MM.YYYY", "31.04.2021", False), ("DD.MM.YYYY", "30.04.2021", True),
+                ("DD.MM.YYYY", "31.12.9999", True), ("DD.MM.YYYY", "01.01.0001", True), ("DD.MM.YYYY", "1.1.2021", True),
+                ("DD.MM.YYYY", "32.01.2021", False), ("DD.MM.YYYY", "00.01.2021", False), ("DD.MM.YYYY", "01.13.2021", False),
+                ("DD.MM.YYYY", "01.00.2021", False), ("DD.MM.YYYY", "01.01.21", False), ("DD.MM.", "29.02.", True),
+                ("DD.MM.", "28.02.", True), ("DD.MM.", "30.02.", False), ("DD.MM.", "31.12.", True), ("MM/DD", "02/29", True),
+                ("YYYY-MM-DD hh:mm:ss", "2016-12-31 23:59:60", True), ("YYYY-MM-DD hh:mm:ss", "2021-02-29 00:00:00", False),
+                ("YYYY-MM-DD", "2024-02-29", True), ("DD.MM.YY", "29.02.24", True), ("DD.MM.YY", "29.02.23", False),
+                ("DD.MM.YYYY", "17.03.2021 ", False), ("DD.MM.YYYY", " 17.03.2021", False), ("DD.MM.YYYY", "17-03-2021", False)]
+    for rule, cell, exp in calendar:
+        n += 1
+        try:
+            f = ff.build_field("DateTime", False, "", rule, ff.data_format("delimited"))
+            try:
+                f.validated(cell)
+                got = True
+            except errors.FieldValueError:
+                got = False
+            if got != exp:
+                failures.append(dict(key="datetime-calendar", what="DateTime(rule=%r).validated(%r): accepted=%s, documented=%s" % (
+                    rule, cell, got, exp), args=dict(rule=rule, cell=cell)))
+        except Exception as e:  # noqa
+            failures.append(dict(key="datetime-calendar", what="DateTime(rule=%r).validated(%r) raised %s: %s" % (
+                rule, cell, type(e).__name__, e), args=dict(rule=rule, cell=cell)))
     # result types through the real callees
     import time as _time
     cases = [("Integer", "", "0...99", "42", 42), ("Decimal", "", "0...99", "4.50", decimal.Decimal("4.50")),
@@ -916,7 +951,7 @@ def build(tier, seed):
         q.append(Query("C02/RegEx/%r" % rule, "regex", make_regex(rule, ml),
                        "RegEx field %r: every ASCII cell up to %d characters against an independent matcher" % (rule, ml),
                        budget_s=900, per_path_timeout=120, expect=("acc", "out"), functions=FUNCS, stubs=("S-FMT",)))
-    for rule in (PATTERN_RULES if tier == "thorough" else PATTERN_RULES[:2]):
+    for rule in (PATTERN_RULES if tier == "thorough" else PATTERN_RULES[:3]):
         ml = 3 if tier == "quick" else 4
         mk, alphabet = make_pattern(rule, ml)
         q.append(Query("C02/Pattern/%r" % rule, "pattern", mk,
